@@ -529,6 +529,8 @@ type RCall struct {
 type RaceCase struct {
 	Programs [][]RCall `json:"programs"`
 	Schedule []int     `json:"schedule"`
+	// Batch: two writes parked at the same time are applied by ONE Update call of the metadata state machine (proposals committed together)
+	Batch bool `json:"batch,omitempty"`
 }
 
 func genRace(t *rapid.T) RaceCase {
@@ -543,6 +545,7 @@ func genRace(t *rapid.T) RaceCase {
 		c.Programs = append(c.Programs, p)
 	}
 	c.Schedule = rapid.SliceOfN(rapid.IntRange(0, 2), 0, 40).Draw(t, "schedule")
+	c.Batch = rapid.IntRange(0, 2).Draw(t, "batch") == 0
 	return c
 }
 
@@ -567,6 +570,7 @@ type raceResult struct {
 
 func runRace(c RaceCase, o *vt.Obs) *vt.Failure {
 	w := gate.NewWorld()
+	w.Batch = c.Batch
 	var mu sync.Mutex
 	var results []raceResult
 	seq := 0
@@ -659,6 +663,9 @@ func runRace(c RaceCase, o *vt.Obs) *vt.Failure {
 	}
 	if bothPassedExists {
 		o.Label("two-creators-passed-the-existence-check")
+	}
+	if w.Batched > 0 {
+		o.Label("two-proposals-applied-in-one-update-call")
 	}
 	o.NonTrivial = bothPassedExists
 	o.Describe = func() string { return fmt.Sprintf("%+v", c) }
